@@ -174,12 +174,71 @@ func c08EventsPollers(w *fw.Worker, i int, r *fw.Rand) {
 	}
 }
 
+// blankDoneRetry: a Blank's Done whose context ends before the monitor takes the message (the monitor is busy in
+// Verify) was not delivered; the owner calls Done again with a live context. When the other watcher is done too, the
+// monitor and callback goroutines must exit.
+func blankDoneRetry(w *fw.Worker, i int, r *fw.Rand, prop string) {
+	desc := map[string]any{"mode": "blank-done-undelivered-then-retried"}
+	w.BeginDesc(i, "blank-done-retry")
+	c, err := c07Start(r, true, conc.Opts{NSrc: 2})
+	if err != nil {
+		w.Violation(i, "config-failed", err.Error(), desc)
+		return
+	}
+	e := c.e
+	defer e.Stop()
+	ctx := e.S.Ctx
+	// park the monitor inside Verify for a report of the other watcher, and call Done on the Blank meanwhile
+	l := e.RandLayer(r, 0, 0)
+	doneCalled := make(chan struct{})
+	go func() {
+		// wait until the monitor is inside Verify (the report below), then a Done that gives up after 20ms
+		for k := 0; k < 100000 && !e.S.InVerify(); k++ {
+			time.Sleep(50 * time.Microsecond)
+		}
+		sctx, cancel := context.WithTimeout(ctx, 20*time.Millisecond)
+		c.blank.Done(sctx)
+		cancel()
+		close(doneCalled)
+	}()
+	abandoned, _ := e.HoldInVerify(1, 1, l, doneCalled)
+	if !abandoned {
+		w.Inconclusive(i, "the monitor never reached Verify for the parking report")
+		return
+	}
+	// the owner retries with a live context, then the other watcher finishes as well
+	dctx, dcancel := context.WithTimeout(ctx, 5*time.Second)
+	c.blank.Done(dctx)
+	e.Srcs[1].WA().Done(dctx)
+	dcancel()
+	w.Count("blank_done_retries_checked", 1)
+	select {
+	case <-dials.VerifMonitorDone(e.D):
+	case <-time.After(10 * time.Second):
+		s1, g := monitorState()
+		time.Sleep(300 * time.Millisecond)
+		s2, _ := monitorState()
+		if s1 == "idle" && s2 == "idle" {
+			w.Violation(i, "monitor-did-not-exit:all-done:blank-done-retried", "every watcher called Done (the Blank's first Done expired undelivered, its second had 5s) but the monitor is still idle in its loop, 10s later", map[string]any{"case": desc, "goroutine": fw.TrimStack(g)})
+		} else {
+			w.Inconclusive(i, "monitor exit not observed; state "+s1+"/"+s2)
+		}
+		return
+	}
+	if prop == "C08" {
+		c08LeakCheck(w, i, desc)
+	}
+	w.Distinct("blank-done-retry")
+}
+
 func runC08(w *fw.Worker) {
 	w.Cases(func(i int, r *fw.Rand) {
 		g := i*w.Shards + w.Shard
 		switch {
 		case g%40 == 17:
 			c08EventsPollers(w, i, r)
+		case g%40 == 23:
+			blankDoneRetry(w, i, r, "C08")
 		case g%10 == 9:
 			c08BlockedCallback(w, i, r)
 		case g%10 == 8:
